@@ -59,6 +59,21 @@ pub fn catch_up(w: &mut World, max_rounds: usize) -> (bool, usize, Vec<String>) 
         }
         last = now;
     }
+    if std::env::var("KVH_DEBUG_CATCHUP").is_ok() {
+        eprintln!("catch_up: not settled: open requests {}; pending {:?}; remote pending {:?}",
+            has_open_requests(w),
+            w.pending().iter().map(|p| p.1.clone()).collect::<Vec<_>>(),
+            w.remote.as_ref().map(|r| r.pending().iter().map(|p| p.1.clone()).collect::<Vec<_>>()));
+        for ca in w.ca_handles() {
+            if let Ok(c) = w.krill.ca_manager().get_ca(&h(&ca)) {
+                for p in c.parents() {
+                    if c.has_pending_requests(p) {
+                        eprintln!("  {ca} has pending requests for {p}; known: {}", parent_knows(w, p.as_str(), &ca));
+                    }
+                }
+            }
+        }
+    }
     (false, max_rounds, fatal)
 }
 
@@ -70,16 +85,57 @@ pub fn has_open_requests(w: &World) -> bool {
             for p in c.parents() {
                 // a parent that no longer knows this child can never
                 // answer; that request is not "open work"
-                if p.as_str() != "ta" && w.krill.ca_manager().ca_show_child(
-                    &h(p.as_str()), &h(&ca).convert()
-                ).is_err() {
+                if p.as_str() != "ta" && !parent_knows(w, p.as_str(), &ca) {
                     continue
                 }
                 if c.has_pending_requests(p) { return true }
             }
         }
     }
+    // the CAs of the second instance are somebody's children as well
+    if let Some(r) = &w.remote {
+        for ca in r.ca_handles() {
+            if let Ok(c) = r.krill.ca_manager().get_ca(&h(&ca)) {
+                for p in c.parents() {
+                    if !parent_knows(w, p.as_str(), &ca) { continue }
+                    if c.has_pending_requests(p) { return true }
+                }
+            }
+        }
+    }
     false
+}
+
+/// Whether CA `parent` - in this instance or in the second one - has a
+/// child `child`.
+pub fn parent_knows(w: &World, parent: &str, child: &str) -> bool {
+    if parent == "ta" { return true }
+    if w.krill.ca_manager().ca_show_child(
+        &h(parent), &h(child).convert()).is_ok() { return true }
+    if let Some(r) = &w.remote {
+        if r.krill.ca_manager().ca_show_child(
+            &h(parent), &h(child).convert()).is_ok() { return true }
+    }
+    false
+}
+
+/// Every key held (in any role) by a CA of this instance or of the second
+/// one -> its owner.
+pub fn key_owners(w: &World) -> BTreeMap<String, String> {
+    let mut owners: BTreeMap<String, String> = BTreeMap::new();
+    let mut add = |w: &World| {
+        for ca in w.ca_handles() {
+            let r = key_roles(w, &ca);
+            for k in r.active.iter().chain(r.new.iter()).chain(r.old.iter())
+                .chain(r.pending.iter())
+            {
+                owners.insert(k.clone(), ca.clone());
+            }
+        }
+    };
+    add(w);
+    if let Some(r) = &w.remote { add(r) }
+    owners
 }
 
 //------------ helpers -------------------------------------------------------
@@ -516,15 +572,7 @@ pub fn stored_child_certs(w: &World, issuer: &str) -> Vec<StoredChildCert> {
 /// `ResourceClassRemoved` task) makes the parent withdraw the certificate.
 /// To be used at caught-up points only.
 pub fn dropped_key_issues(w: &World, obs: &Observation) -> Vec<Issue> {
-    let mut owners: BTreeMap<String, String> = BTreeMap::new();
-    for ca in w.ca_handles() {
-        let r = key_roles(w, &ca);
-        for k in r.active.iter().chain(r.new.iter()).chain(r.old.iter())
-            .chain(r.pending.iter())
-        {
-            owners.insert(k.clone(), ca.clone());
-        }
-    }
+    let owners = key_owners(w);
     let mut issues = vec![];
     for p in &obs.view.cas {
         for (uri, ski, _res) in &p.child_certs {
